@@ -26,16 +26,16 @@ Fixpoint X (ws : list nat) (j : nat) : nat :=
 Definition Wd (d : rdraw) : nat := S (X (rd_ws d) (ncols d)).
 Definition Hd (d : rdraw) : nat := S (2 * nrows d).
 
-Inductive pos := Sep (j : nat) | In (j off : nat).
+Inductive pos := PSep (j : nat) | PIn (j off : nat).
 Fixpoint locate (ws : list nat) (x : nat) : pos :=
   match x with
-  | O => Sep 0
+  | O => PSep 0
   | S x' =>
       match ws with
-      | [] => In 0 x'
+      | [] => PIn 0 x'
       | w :: ws' =>
-          if x' <? w then In 0 x'
-          else match locate ws' (x' - w) with Sep j => Sep (S j) | In j o => In (S j) o end
+          if x' <? w then PIn 0 x'
+          else match locate ws' (x' - w) with PSep j => PSep (S j) | PIn j o => PIn (S j) o end
       end
   end.
 
@@ -54,8 +54,8 @@ Definition cell_text (d : rdraw) (i j : nat) : list N := nth j (nth i (rd_rows d
 Definition char_at (d : rdraw) (y x : nat) : N :=
   let i := Nat.div2 y in
   match locate (rd_ws d) x with
-  | Sep j => if Nat.even y then junction d i j else if is_dbl d j then dV else cV
-  | In j o => if Nat.even y then (if i =? 1 then dH else cH) else nth o (cell_text d i j) cWhite
+  | PSep j => if Nat.even y then junction d i j else if is_dbl d j then dV else cV
+  | PIn j o => if Nat.even y then (if i =? 1 then dH else cH) else nth o (cell_text d i j) cWhite
   end.
 
 Definition tab (h w : nat) (f : nat -> nat -> N) : layer := map (fun y => map (f y) (seq 0 w)) (seq 0 h).
